@@ -273,6 +273,8 @@ class C36(Check):
 
     def _judge(self, case, obs):
         """returns None or (category, index of the failing operation, text)"""
+        if obs.startswith("<skipped"):
+            return None           # the harness gave up after repeated crashes, reported on the crashing cases
         if obs.startswith("<crash") or obs.startswith("<impl"):
             return ("crash", 0, "the implementation crashed or hung on a legal history: " + obs[:80])
         ops = [t.strip() for t in case.split(",") if t.strip()]
